@@ -75,10 +75,10 @@ Proof.
 Qed.
 
 (* the signed ragged path computes the value of a numeral *)
-Lemma flag_correct txt : numeral txt = true ->
-  str_to_int_flag (hd0 txt =? 45) (hd0 txt =? 43) txt = int_of_text txt.
+Lemma flag_core_correct txt : numeral txt = true ->
+  str_to_int_core (hd0 txt =? 45) (hd0 txt =? 43) txt = int_of_text txt.
 Proof.
-  intros H. destruct txt as [|c r]; [discriminate|]. simpl hd0. unfold numeral in H. unfold int_of_text, str_to_int_flag.
+  intros H. destruct txt as [|c r]; [discriminate|]. simpl hd0. unfold numeral in H. unfold int_of_text, str_to_int_core.
   destruct (Z.eqb_spec c 45) as [E45|N45].
   - simpl orb in *. apply andb_true_iff in H. destruct H as [Hne Hd].
     assert (r <> []) by (intro E; subst r; discriminate).
@@ -95,6 +95,19 @@ Proof.
       rewrite dot_pow_cons. f_equal; lia.
     + simpl orb in *. cbv iota.
       destruct (uint_dot (c :: r) H) as [ds [Hds Hu]]; [discriminate|]. rewrite Hu, Hds. cbn [option_map]. f_equal; lia.
+Qed.
+Lemma flag_correct txt : numeral txt = true ->
+  str_to_int_flag (hd0 txt =? 45) (hd0 txt =? 43) txt = int_of_text txt.
+Proof.
+  intros H. unfold str_to_int_flag. rewrite <- flag_core_correct by exact H.
+  replace ((len txt =? 0) || ((hd0 txt =? 45) || (hd0 txt =? 43)) && (len txt =? 1)) with false; [reflexivity|].
+  symmetry. destruct txt as [|c r]; [discriminate|].
+  assert (L : len (c :: r) = 1 + len r) by apply len_cons. pose proof (len_nonneg r).
+  apply orb_false_iff. split.
+  - apply Z.eqb_neq. lia.
+  - cbn [hd0]. unfold numeral in H. destruct ((c =? 45) || (c =? 43)); [|reflexivity].
+    apply andb_true_iff in H. destruct H as [Hne _]. apply negb_true_iff in Hne. apply Z.eqb_neq in Hne.
+    cbn [andb]. apply Z.eqb_neq. lia.
 Qed.
 Lemma auto_correct txt : numeral txt = true -> str_to_int_auto txt = int_of_text txt.
 Proof. apply flag_correct. Qed.
